@@ -2,6 +2,7 @@ package main
 
 import (
 	"fmt"
+	"runtime"
 	"go/constant"
 	"go/token"
 	"go/types"
@@ -117,6 +118,7 @@ type Exec struct {
 	freshCtr    int
 	siteCtr     map[string]int
 	bigVals     map[*Object]*Term
+	shapers     []shaper
 }
 
 func (x *Exec) where() string {
@@ -634,7 +636,7 @@ func (x *Exec) exec(f *frame, ins ssa.Instruction) {
 	case *ssa.MultiConvert:
 		f.env[ins] = x.convert(x.get(f, ins.X), ins.X.Type(), ins.Type())
 	case *ssa.SliceToArrayPointer:
-		s := x.get(f, ins.X).(SliceV)
+		s := x.sl(x.get(f, ins.X))
 		at := ins.Type().(*types.Pointer).Elem().Underlying().(*types.Array)
 		if int(at.Len()) > s.Len {
 			x.goPanic("slice-to-array", "slice to array pointer: length too short")
@@ -1023,8 +1025,10 @@ func (x *Exec) valEq(a, b Value, t types.Type) *Term {
 	case FuncV:
 		bv := b.(FuncV)
 		return ts.Bool(av.Fn == nil && bv.Fn == nil && av.Builtin == nil && bv.Builtin == nil)
+	case SymSliceV:
+		return x.valEq(x.sl(av), b, t)
 	case SliceV:
-		bv := b.(SliceV)
+		bv := x.sl(b)
 		if av.Obj == nil && bv.Obj == nil {
 			return ts.True
 		}
@@ -1157,7 +1161,7 @@ func (x *Exec) convert(v Value, from, to types.Type) Value {
 	if fs, ok := fu.(*types.Slice); ok {
 		if tb, ok := tu.(*types.Basic); ok && tb.Kind() == types.String {
 			_ = fs
-			s := v.(SliceV)
+			s := x.sl(v)
 			b := make([]*Term, s.Len)
 			for i := 0; i < s.Len; i++ {
 				b[i] = s.Obj.Cells[s.Off+i].(*Term)
@@ -1256,6 +1260,16 @@ func (x *Exec) indexAddr(f *frame, ins *ssa.IndexAddr) Value {
 	et := ins.Type().(*types.Pointer).Elem()
 	ec := x.ncells(et)
 	switch b := base.(type) {
+	case SymSliceV:
+		idx64 := idx
+		if idx.W < 64 {
+			idx64 = x.ts.ZExt(idx, 64)
+		}
+		if !x.branch(x.ts.ULt(idx64, b.Len)) {
+			x.goPanic("index", "slice: index out of range (symbolic length)")
+		}
+		i := x.concretize(idx, b.Cap)
+		return Ptr{Obj: b.Obj, Off: b.Off + i*ec}
 	case SliceV:
 		i := x.idxConcrete(idx, b.Len, signed, "slice")
 		return Ptr{Obj: b.Obj, Off: b.Off + i*ec}
@@ -1348,6 +1362,9 @@ func (x *Exec) slice(f *frame, ins *ssa.Slice) Value {
 	var off, length, capacity, ec int
 	isStr := false
 	var sv StrV
+	if sb, ok := base.(SymSliceV); ok {
+		base = x.sl(sb)
+	}
 	switch b := base.(type) {
 	case SliceV:
 		obj, off, length, capacity = b.Obj, b.Off, b.Len, b.Cap
@@ -1394,11 +1411,33 @@ func (x *Exec) slice(f *frame, ins *ssa.Slice) Value {
 
 func (x *Exec) makeSlice(f *frame, ins *ssa.MakeSlice) Value {
 	et := ins.Type().Underlying().(*types.Slice).Elem()
-	lt := x.term(f, ins.Len)
-	ct := x.term(f, ins.Cap)
+	lt0 := x.term(f, ins.Len)
+	ct0 := x.term(f, ins.Cap)
+	widen := func(t *Term, ty types.Type) *Term {
+		if t.W < 64 {
+			if _, signed, _ := typeIntWidth(ty); signed {
+				return x.ts.SExt(t, 64)
+			}
+			return x.ts.ZExt(t, 64)
+		}
+		return t
+	}
+	lt := widen(lt0, ins.Len.Type())
+	ct := widen(ct0, ins.Cap.Type())
+	if !lt.IsConst() && ct0 == lt0 && x.cfg.Params["lazy_make"] == 1 {
+		x.allocCheck(lt, "make len")
+		if !x.branch(x.ts.ULe(lt, x.ts.ConstU(64, uint64(x.cfg.MaxLen)))) {
+			if x.branch(x.ts.SLt(lt, x.ts.ConstU(64, 0))) {
+				x.goPanic("make", "make len: len out of range")
+			}
+			x.abort("limit", fmt.Sprintf("make len: symbolic length beyond bound %d", x.cfg.MaxLen))
+		}
+		s := x.newSlice(et, x.cfg.MaxLen, x.cfg.MaxLen)
+		return SymSliceV{Obj: s.Obj, Len: lt, Cap: x.cfg.MaxLen}
+	}
 	n := x.symLen(lt, "make len")
 	c := n
-	if ct != lt {
+	if ct0 != lt0 {
 		c = x.symLen(ct, "make cap")
 	}
 	if c < n {
@@ -1420,7 +1459,7 @@ func (x *Exec) symLen(t *Term, what string) int {
 		}
 		return int(v.Int64())
 	}
-	x.res.noteAlloc(what, t)
+	x.allocCheck(t, what)
 	if !x.branch(x.ts.ULe(t, x.ts.ConstU(t.W, uint64(x.cfg.MaxLen)))) {
 		// negative (as signed) => Go panics; large => beyond bound
 		if x.branch(x.ts.SLt(t, x.ts.ConstU(t.W, 0))) {
@@ -1429,6 +1468,22 @@ func (x *Exec) symLen(t *Term, what string) int {
 		x.abort("limit", fmt.Sprintf("%s: symbolic length beyond bound %d", what, x.cfg.MaxLen))
 	}
 	return x.concretize(t, x.cfg.MaxLen+1)
+}
+
+func (x *Exec) allocCheck(t *Term, what string) {
+	if lim, ok := x.cfg.Params["alloc_limit"]; ok && x.cfg.NoPanic {
+		// allocation must be proportional to the input: a feasible size above
+		// the limit is a violation (prefer a huge witness, which also crashes natively)
+		huge := x.ts.ULt(x.ts.ConstU(t.W, 1<<40), t)
+		over := x.ts.ULt(x.ts.ConstU(t.W, uint64(lim)), t)
+		if r := x.check(huge); r == Sat {
+			x.reportViolation("alloc", fmt.Sprintf("%s: allocation size not bounded by input (limit %d elements)", what, lim), x.where(), huge)
+		} else if r2 := x.check(over); r2 == Sat {
+			x.reportViolation("alloc", fmt.Sprintf("%s: allocation size not bounded by input (limit %d elements)", what, lim), x.where(), over)
+		} else if r2 == Unknown {
+			x.res.Incomplete = append(x.res.Incomplete, what+": allocation bound query unknown")
+		}
+	}
 }
 
 func (r *HarnessResult) noteAlloc(what string, t *Term) {}
@@ -1586,9 +1641,18 @@ func (x *Exec) rangeNext(f *frame, ins *ssa.Next) Value {
 
 func (x *Exec) builtin(f *frame, b *ssa.Builtin, args []Value, argv []ssa.Value) Value {
 	ts := x.ts
+	if n := b.Name(); n != "len" && n != "cap" {
+		for i, a := range args {
+			if sv, ok := a.(SymSliceV); ok {
+				args[i] = x.sl(sv)
+			}
+		}
+	}
 	switch b.Name() {
 	case "len":
 		switch a := args[0].(type) {
+		case SymSliceV:
+			return a.Len
 		case SliceV:
 			return ts.ConstU(64, uint64(a.Len))
 		case StrV:
@@ -1610,6 +1674,8 @@ func (x *Exec) builtin(f *frame, b *ssa.Builtin, args []Value, argv []ssa.Value)
 		}
 	case "cap":
 		switch a := args[0].(type) {
+		case SymSliceV:
+			return a.Len
 		case SliceV:
 			return ts.ConstU(64, uint64(a.Cap))
 		case Agg:
@@ -1618,7 +1684,7 @@ func (x *Exec) builtin(f *frame, b *ssa.Builtin, args []Value, argv []ssa.Value)
 			return ts.ConstU(64, uint64(argv[0].Type().Underlying().(*types.Pointer).Elem().Underlying().(*types.Array).Len()))
 		}
 	case "append":
-		s := args[0].(SliceV)
+		s := x.sl(args[0])
 		st := argv[0].Type().Underlying().(*types.Slice)
 		ec := x.ncells(st.Elem())
 		var addCells []Value
@@ -1658,7 +1724,7 @@ func (x *Exec) builtin(f *frame, b *ssa.Builtin, args []Value, argv []ssa.Value)
 		copy(ns.Obj.Cells[s.Len*ec:], addCells)
 		return ns
 	case "copy":
-		d := args[0].(SliceV)
+		d := x.sl(args[0])
 		ec := x.ncells(argv[0].Type().Underlying().(*types.Slice).Elem())
 		var src []Value
 		var n int
@@ -1690,6 +1756,8 @@ func (x *Exec) builtin(f *frame, b *ssa.Builtin, args []Value, argv []ssa.Value)
 		return nil
 	case "print", "println":
 		return nil
+	case "recover":
+		return Iface{}
 	case "min", "max":
 		r := args[0].(*Term)
 		_, signed, _ := typeIntWidth(argv[0].Type())
@@ -1736,7 +1804,7 @@ func (x *Exec) builtin(f *frame, b *ssa.Builtin, args []Value, argv []ssa.Value)
 		}
 		return SliceV{Obj: p.Obj, Off: p.Off, Len: n, Cap: n}
 	case "SliceData":
-		s := args[0].(SliceV)
+		s := x.sl(args[0])
 		if s.Obj == nil {
 			return Ptr{}
 		}
@@ -1780,6 +1848,7 @@ func (x *Exec) resetPath() {
 	x.trackWrites = false
 	x.cfg.NoPanic = false
 	x.bigVals = nil
+	x.shapers = nil
 }
 
 func (x *Exec) initLayout() {
@@ -1846,7 +1915,9 @@ func (x *Exec) runPath(fn *ssa.Function, incomplete, unsupported map[string]bool
 				incomplete[s.Msg] = true
 			}
 		default:
-			panic(r)
+			buf := make([]byte, 4096)
+			buf = buf[:runtime.Stack(buf, false)]
+			unsupported[fmt.Sprintf("engine panic: %v @ %s\n%s", r, x.where(), buf)] = true
 		}
 	}()
 	// run package init of the harness package first
